@@ -30,7 +30,9 @@ PeerAlive(d, side) == IF side = "d"
 Reset == R.e = "reset" /\ L' = <<>> /\ D' = <<>>
 
 (* M1: /memory/0 always gets a port; a given port can be listened on iff nobody uses it *)
-Listen == /\ R.e = "listen"
+(* an address that is not /memory/N or /memory/N/p2p/.. is refused as unsupported and changes nothing *)
+Unsupported == /\ R.e \in {"listen", "dial"} /\ R.sfx = "bad" /\ R.res = "unsupported" /\ UNCHANGED <<L, D>>
+Listen == /\ R.e = "listen" /\ R.sfx # "bad"
           /\ (IF R.p = 0 THEN R.res = "ok" ELSE (R.res = "ok") = ~InUse(R.p)) = TRUE
           /\ IF R.res = "ok"
              THEN R.lid = Len(L) + 1 /\ L' = Append(L, [t |-> R.t, p |-> R.p, st |-> "open", ann |-> FALSE])
@@ -49,7 +51,7 @@ Remove == /\ R.e = "remove"
 (* M2: a dial succeeds iff a listener owns the port at that moment.  With a listener dial() must return the future;
    without one it returns an error, or (the code does this for a port that is somebody's ephemeral dialer port) a
    future that is bound to fail: lid = 0 *)
-Dial == /\ R.e = "dial"
+Dial == /\ R.e = "dial" /\ R.sfx # "bad"
         /\ (IF R.p # 0 /\ Targets(R.p) # {} THEN R.res = "ok" ELSE R.res = "err" \/ InUse(R.p)) = TRUE
         /\ IF R.res = "ok"
            THEN /\ R.d = Len(D) + 1
@@ -121,7 +123,7 @@ Read == /\ R.e = "read" /\ R.d \in DS
 Skip == R.e = "skip" /\ UNCHANGED <<L, D>>
 
 Next == l <= NRec /\ l' = l + 1 /\
-        (Reset \/ Listen \/ Remove \/ Dial \/ DialPoll \/ DropD \/ NewAddr \/ Incoming \/ Closed \/ PollPending \/ DropT \/ Close
+        (Reset \/ Unsupported \/ Listen \/ Remove \/ Dial \/ DialPoll \/ DropD \/ NewAddr \/ Incoming \/ Closed \/ PollPending \/ DropT \/ Close
          \/ Write \/ Read \/ Skip)
 Spec == Init /\ [][Next]_vars
 PortExclusive == \A i, j \in LS : (i # j /\ L[i].st = "open" /\ L[j].st = "open" /\ L[i].p # 0) => L[i].p # L[j].p
